@@ -59,13 +59,12 @@ def run(ck, rng, tier):
         meta.append((blocks, scaling, npc, nproc))
         ck.count("blocks %d" % nb)
         ck.count("scaling %d" % scaling)
-    rc, outs, err = vf.run_driver(exe, "cap 50000\n" + "\n".join(lines) + "\n", timeout=900)
-    if rc != 0 or len(outs) != len(meta):
-        ck.broken("driver drv_cpca", "rc=%s cases=%d/%d %s" % (rc, len(outs), len(meta), err[-800:]))
-        return
+    outs = vf.run_driver_cases(ck, exe, lines, lambda k: ("CPCA", {"case": str(meta[k])[:1500]}), header="cap 50000\n", timeout=900)
     checks = vf.Checks()
     cm, cv = vf.coq_mat, vf.coq_vec
     for i, (mt, o) in enumerate(zip(meta, outs)):
+        if o is None:
+            continue
         blocks, scaling, npc, nproc = mt
         nb, n = len(blocks), blocks[0].shape[0]
         ck.case(("cpca", nb, n, tuple(b.shape[1] for b in blocks), scaling, npc, repr(blocks[0][0].tolist())),
